@@ -639,6 +639,14 @@ class Weaver:
         w = Woven()
         text = self.idx.tok_text(it.start, it.end)
         w.src_hash = hashlib.sha256(text.encode()).hexdigest()[:16]
+        if kind == "type":
+            # type alias: emitted verbatim, visibility widened to pub (R9)
+            i = it.start
+            while toks[i].text != "type":
+                i += 1
+            w.segs.append(Seg("pub %s;\n" % self.idx.tok_text(i, it.end - 1 if toks[it.end].text == ";" else it.end), "src"))
+            w.rules = [("R9:pub-widen", 1)]
+            return w
         # find generics and body
         i = it.start
         while toks[i].text != kind:
